@@ -31,8 +31,8 @@ theorem RecOK_intro {s₀ : SStore M} {log : List (Entry M)} {t n : Nat} {op : O
           specStep op (replay s₀ (log.take lin)) = (res, replay s₀ (log.take lin)) ∧
           (res = .ok none ∨ ∃ e, res = .error e)
       | .raced =>
-          (res = .error .aborted ∧ (opGen op = true ∨ inv < resp)) ∨
-          (res = .error .unavailable ∧ inv + 5 ≤ resp)) :
+          (res = .error .aborted ∧ (opGen op = true ∨ ∃ ks, RivalCommits log (opId op) inv resp 1 ks)) ∨
+          (res = .error .unavailable ∧ ∃ ks, RivalCommits log (opId op) inv resp 5 ks)) :
     RecOK s₀ log t n ⟨op, res, kind, inv, lin, resp⟩ := ⟨h1, h2, h3, h4⟩
 
 /-- Finishing a call without touching shared state. -/
@@ -55,6 +55,7 @@ theorem Inv.commit {s₀ : SStore M} {c : Config M} (h : Inv s₀ c) (t : Nat) (
     (hnr : c.nextRef ≤ nr') (hcell : ∀ r b, cell = some (r, b) → c.nextRef ≤ r ∧ r < nr')
     (hinv : th.invAt ≤ c.log.length)
     (hspec : specStep op (absS c.store) = (.ok (some v), setAt (absS c.store) i (cell.map (·.2))))
+    (hopid : opId op = i)
     (tm : Nat) (st : Nat → Nat) (tk rg : Nat) :
     Inv s₀ { store := setAt c.store i cell
              nextRef := nr'
@@ -97,7 +98,9 @@ theorem Inv.commit {s₀ : SStore M} {c : Config M} (h : Inv s₀ c) (t : Nat) (
         simp only []
         refine ⟨⟨tm, by simp⟩, by simp, ?_, v, rfl⟩
         rw [List.take_append_of_le_length (Nat.le_refl _), take_length_self, ← h.store, hspec]
-    · exact (h.thr t').mono _ hnr hst
+    · refine (h.thr t').mono _ hnr hst ?_
+      intro j hj
+      exact setAt_other _ _ (by rw [← hopid]; exact hj)
   · intro k e he
     show ∃ r : Rec M, (setAt c.threads t _ e.tid).done[e.idx]? = some r ∧ _
     by_cases hk : k < c.log.length
@@ -201,7 +204,8 @@ theorem Inv.stepIdle {s₀ : SStore M} {c : Config M} (h : Inv s₀ c) (env : En
       · refine ⟨(h.thr t).recs, ?_⟩
         unfold PcOK
         simp only []
-        refine ⟨Nat.le_refl _, Nat.le_refl _, by omega, ?_, ?_, fun _ => by first | rfl | trivial, by omega⟩
+        refine ⟨Nat.le_refl _, Nat.le_refl _, by omega, ?_, ?_, fun _ => by first | rfl | trivial,
+          [], rfl, List.Pairwise.nil, by intro k hk; cases hk⟩
         · rw [take_length_self, ← h.store]; rfl
         · intro r b hs
           refine ⟨h.refs _ _ _ hs, ?_⟩
@@ -254,8 +258,13 @@ theorem Inv.stepCommit {s₀ : SStore M} {c : Config M} (h : Inv s₀ c) (t : Na
     refine RecOK_intro (by omega) (Nat.le_refl _) (Nat.le_refl _) ?_
     simp only []
     refine Or.inl ⟨by first | rfl | trivial, Or.inr ?_⟩
-    have : (c.threads t).readAt ≠ c.log.length := fun heq => hne (hsame heq).symm
-    omega
+    have hnq : ¬ Quiet c.log u.id (c.threads t).readAt := fun hq => hne (hsame hq).symm
+    obtain ⟨k, e, hk1, hk2, he, hid⟩ := exists_of_not_quiet hnq
+    refine ⟨[k], rfl, List.pairwise_singleton _ _, ?_⟩
+    intro x hx
+    simp only [List.mem_singleton] at hx
+    subst hx
+    exact ⟨by omega, hk2, e, he, hid⟩
   · next heq =>
     have heq' : rd = secondGet true u created (c.store u.id) := by
       simpa using heq
@@ -265,7 +274,7 @@ theorem Inv.stepCommit {s₀ : SStore M} {c : Config M} (h : Inv s₀ c) (t : Na
       show specUpd u (absS c.store) = _
       exact specUpd_of_read hs hch
     exact Inv.commit h t (c.threads t) rfl (.upd u) new u.id (some (c.nextRef, new)) (c.nextRef + 1)
-      (by omega) (by intro r b hrb; cases hrb; omega) (by omega) hspec _ _ _ _
+      (by omega) (by intro r b hrb; cases hrb; omega) (by omega) hspec rfl _ _ _ _
 
 theorem Inv.stepDel {s₀ : SStore M} {c : Config M} (h : Inv s₀ c) (t : Nat)
     (d : DelOp M) (seen : Option (Nat × M)) (attempt : Nat)
@@ -275,7 +284,7 @@ theorem Inv.stepDel {s₀ : SStore M} {c : Config M} (h : Inv s₀ c) (t : Nat)
   unfold PcOK at hp
   rw [hpc] at hp
   simp only [] at hp
-  obtain ⟨h1, h2, h3, hview, hseen, hsame, hatt⟩ := hp
+  obtain ⟨h1, h2, h3, hview, hseen, hsame, ks, hks⟩ := hp
   unfold ScVerif.C02.stepDel
   simp only []
   cases seen with
@@ -304,19 +313,19 @@ theorem Inv.stepDel {s₀ : SStore M} {c : Config M} (h : Inv s₀ c) (t : Nat)
       split
       · next hchg =>
         -- the pointer changed since the last look: some call committed in between
-        have hgrew : (c.threads t).readAt < c.log.length := by
-          have : (c.threads t).readAt ≠ c.log.length := by
-            intro heq
-            apply hchg
-            rw [hsame heq]; rfl
-          omega
+        have hnq : ¬ Quiet c.log d.id (c.threads t).readAt := by
+          intro hq
+          apply hchg
+          rw [hsame hq]; rfl
+        obtain ⟨k, e, hk1, hk2, he, hid⟩ := exists_of_not_quiet hnq
+        have hks' := hks.snoc hk1 hk2 he hid h1
         split
         · -- retry with the item seen under the lock
           apply h.setThread
           · refine ⟨(h.thr t).recs, ?_⟩
             unfold PcOK
             simp only []
-            refine ⟨by omega, Nat.le_refl _, by omega, ?_, ?_, fun _ => by first | rfl | trivial, by omega⟩
+            refine ⟨by omega, Nat.le_refl _, by omega, ?_, ?_, fun _ => by first | rfl | trivial, ks ++ [k], hks'⟩
             · rw [take_length_self, ← h.store]; rfl
             · intro r' b' hs
               refine ⟨h.refs _ _ _ hs, ?_⟩
@@ -327,7 +336,9 @@ theorem Inv.stepDel {s₀ : SStore M} {c : Config M} (h : Inv s₀ c) (t : Nat)
         · apply Inv.finish_local h t _ rfl
           refine RecOK_intro (by omega) (Nat.le_refl _) (Nat.le_refl _) ?_
           simp only []
-          exact Or.inr ⟨by first | rfl | trivial, by omega⟩
+          refine Or.inr ⟨by first | rfl | trivial, ks ++ [k], ?_⟩
+          have h5 : attempt + 1 = 5 := by omega
+          rw [← h5]; exact hks'
       · next hne =>
         -- the pointer is unchanged: the stored body is the one the checks inspected
         have hcur : ∃ b', c.store d.id = some (r, b') := by
@@ -344,7 +355,7 @@ theorem Inv.stepDel {s₀ : SStore M} {c : Config M} (h : Inv s₀ c) (t : Nat)
             = (.ok (some b'), setAt (absS c.store) d.id ((none : Option (Nat × M)).map (·.2))) := by
           simp [specStep, specDel, absS, hb', hpre]
         exact Inv.commit h t (c.threads t) rfl (.del d) b' d.id none c.nextRef
-          (Nat.le_refl _) (by intro r b hrb; cases hrb) (by omega) hspec _ _ _ _
+          (Nat.le_refl _) (by intro r b hrb; cases hrb) (by omega) hspec rfl _ _ _ _
 
 theorem Inv.stepCore {s₀ : SStore M} {c : Config M} (h : Inv s₀ c) (env : Env) (t : Nat) :
     Inv s₀ (stepCore true env c t) := by
